@@ -337,6 +337,12 @@ Definition oracle_seen (nc : bool) (lim : option N) (ref before : obs) (c : cmd)
   let sp := spec_of_obs nc before (c_redirs c) in
   match st_inside st with
   | Some inside =>
+      if match c_kind c with KAsync => true | _ => false end then
+        (* a child process whose standard input has been replaced by /dev/null:
+           nothing else may differ from the parent but the targets and the
+           child's own saved copies *)
+        if internal_ok (0%N :: tg) (ob_tab before) (ob_tab inside) then None else Some 2%N
+      else
       if negb (internal_ok tg (ob_tab before) (ob_tab inside)) then Some 2%N
       else
         match sp with
